@@ -354,7 +354,7 @@ def oracle(chunks, eof, obs):
     known_status = {int(s) for s in SmppCommandStatus}
     while i + 16 <= len(data):
         ln, cmd, st, seq = struct.unpack('>IIII', data[i:i + 16])
-        if cmd not in known_cmd or st not in known_status or ln < 16:
+        if cmd not in known_cmd or ln < 16:            # (a reserved or vendor specific status is as good as any: SMPP 3.4 section 5.1.3)
             break                                       # unusable header: at worst a reconnect
         if i + ln > len(data):
             break
